@@ -1625,3 +1625,295 @@ Proof.
         [unfold i32_max; lia|discriminate|exact EL|].
       exists c, (radix_val R), ds, rest, m. rewrite E. auto.
 Qed.
+
+(** ** Memory locations and locations *)
+
+Lemma pi_other_head : forall c t,
+  c <> 43 -> c <> 45 -> c <> 35 -> between 48 c 57 = false -> radix_of_letter c = None ->
+  parse_integer (c :: t) false = Ok None.
+Proof.
+  intros c t H1 H2 H3 H4 H5. rewrite pi_unfold. unfold take_sign.
+  destruct (N.eqb_spec c 43); [contradiction|]. destruct (N.eqb_spec c 45); [contradiction|].
+  simpl andb. cbv iota. unfold take_prefix.
+  assert (c <> 48). { intros ->. vm_compute in H4. discriminate. }
+  destruct (N.eqb_spec c 48); [contradiction|].
+  unfold radix_of_letter in H5.
+  destruct ((c =? 98) || (c =? 66)); [discriminate|].
+  destruct ((c =? 111) || (c =? 79)); [discriminate|].
+  destruct ((c =? 120) || (c =? 88)); [discriminate|].
+  destruct (N.eqb_spec c 35); [contradiction|]. rewrite H4.
+  destruct (N.eqb_spec c 45); [contradiction|]. destruct (N.eqb_spec c 43); [contradiction|]. reflexivity.
+Qed.
+
+(** The first character of an integer: a sign, `#`, a decimal digit or a radix letter. *)
+Lemma IntSyn_head : forall s v, IntSyn s v -> exists c t, s = c :: t /\
+  (c = 43 \/ c = 45 \/ c = 35 \/ between 48 c 57 = true \/ radix_of_letter c <> None).
+Proof.
+  intros s v H. pose proof (IntSyn_nonempty _ _ H) as Hne. destruct s as [|c t]; [contradiction|].
+  exists c, t. split; [reflexivity|].
+  destruct (N.eqb_spec c 43); [auto|]. destruct (N.eqb_spec c 45); [auto|]. destruct (N.eqb_spec c 35); [auto|].
+  destruct (between 48 c 57) eqn:Eb; [auto|]. destruct (radix_of_letter c) eqn:Er; [right; right; right; right; discriminate|].
+  exfalso. apply parse_integer_complete in H. rewrite pi_other_head in H by assumption. discriminate.
+Qed.
+
+Lemma IntSyn_head_facts : forall s v, IntSyn s v -> exists c t, s = c :: t /\
+  c <> 94 /\ c <> 114 /\ c <> 82.
+Proof.
+  intros s v H. destruct (IntSyn_head s v H) as (c & t & -> & Hc). exists c, t. split; [reflexivity|].
+  destruct Hc as [-> |[-> |[-> |[Hb|Hr]]]]; try (repeat split; discriminate).
+  - unfold between in Hb. cmp_in Hb; try discriminate. repeat split; lia.
+  - unfold radix_of_letter in Hr. repeat split; intros ->; apply Hr; reflexivity.
+Qed.
+
+Lemma pcoffset_head : forall c t, c <> 94 -> pcoffset_try_parse (c :: t) = Ok None.
+Proof. intros c t H. unfold pcoffset_try_parse. destruct (N.eqb_spec c 94); [contradiction|reflexivity]. Qed.
+
+Lemma LabelSyn_head : forall s name off, LabelSyn s name off ->
+  exists c t, s = c :: t /\ label_start c = true.
+Proof. intros s name off H. inversion H; subst; simpl; eauto. Qed.
+
+Lemma label_start_facts : forall c, label_start c = true -> c <> 94.
+Proof. intros c H ->. vm_compute in H. discriminate. Qed.
+
+(** What `MemoryLocation::try_parse` accepts (it does not look at register names). *)
+Inductive MemCoreSyn : list N -> memloc -> Prop :=
+| MC_pc : forall s v, PcOffSyn s v -> MemCoreSyn s (MPcOffset v)
+| MC_addr : forall s v, IntSyn s v -> fits_u16 v -> MemCoreSyn s (MAddress v)
+| MC_label : forall s name off,
+    LabelSyn s name off -> (forall v, ~ IntSyn s v) -> ~ PrefixedLike s -> ~ TooLargeLike s ->
+    MemCoreSyn s (MLabel name off).
+
+Theorem memloc_core_iff : forall s m,
+  memory_location_try_parse s = Ok (Some m) <-> MemCoreSyn s m.
+Proof.
+  intros s m. split.
+  - unfold memory_location_try_parse. intros H.
+    destruct (pcoffset_try_parse s) as [[o|]|e|w|q] eqn:Ep; simpl in H; try discriminate.
+    { inversion H; subst. apply MC_pc. apply pcoffset_iff. exact Ep. }
+    destruct (parse_integer s false) as [[a|]|e|w|q] eqn:Ei; simpl in H; try discriminate.
+    { destruct (as_u16 a) as [a'| | |] eqn:Ea; simpl in H; try discriminate. inversion H; subst.
+      apply as_u16_iff in Ea. destruct Ea as [-> Hf]. apply MC_addr; [apply parse_integer_sound; exact Ei|exact Hf]. }
+    destruct (label_try_parse s) as [[[n o]|]|e|w|q] eqn:El; simpl in H; try discriminate.
+    inversion H; subst. apply label_iff in El.
+    destruct (LabelSyn_head _ _ _ El) as (c & t & -> & Hc).
+    apply (pi_none_iff c t Hc) in Ei. destruct Ei as (H1 & H2 & H3). apply MC_label; assumption.
+  - intros H. unfold memory_location_try_parse. inversion H as [s' v Hp|s' v Hi Hf|s' n o Hl H1 H2 H3]; subst.
+    + apply pcoffset_iff in Hp. rewrite Hp. reflexivity.
+    + destruct (IntSyn_head_facts _ _ Hi) as (c & t & -> & Hc & _).
+      rewrite (pcoffset_head c t Hc), (parse_integer_complete _ _ Hi). unfold bind. cbv iota beta.
+      assert (E : as_u16 v = Ok v) by (apply as_u16_iff; auto). rewrite E. reflexivity.
+    + destruct (LabelSyn_head _ _ _ Hl) as (c & t & -> & Hc).
+      assert (Ei : parse_integer (c :: t) false = Ok None) by (apply pi_none_iff; auto).
+      apply label_iff in Hl.
+      rewrite (pcoffset_head c t (label_start_facts c Hc)), Ei, Hl. reflexivity.
+Qed.
+
+Lemma register_none_iff : forall s, register_try_parse s = Ok None <-> is_str_register s = false.
+Proof.
+  intros s. unfold register_try_parse, is_str_register.
+  destruct s as [|c [|d [|e t]]]; simpl.
+  - tauto.
+  - destruct ((c =? 114) || (c =? 82)); tauto.
+  - destruct ((c =? 114) || (c =? 82)); simpl; [|tauto]. destruct (between 48 d 55); simpl; [|tauto].
+    split; discriminate.
+  - destruct ((c =? 114) || (c =? 82)); simpl; [|tauto]. destruct (between 48 d 55); simpl; [|tauto].
+    destruct (can_contain e); simpl; [tauto|]. split; discriminate.
+Qed.
+
+Lemma sign_not_label_char : forall x, x = 43 \/ x = 45 -> can_contain x = false /\ between 48 x 55 = false.
+Proof. intros x [-> | ->]; split; reflexivity. Qed.
+
+(** A label token looks like a register exactly when its name is a register name. *)
+Lemma is_str_register_label : forall s name off, LabelSyn s name off ->
+  (is_str_register s = true <-> exists r, RegSyn name r).
+Proof.
+  intros s name off H.
+  assert (Hshape : exists c cs offs, s = c :: cs ++ offs /\ name = c :: cs /\ forallb label_char cs = true /\
+                    (offs = [] \/ exists x t, offs = x :: t /\ (x = 43 \/ x = 45))).
+  { inversion H as [c cs Hc Hcs|c cs offs v Hc Hcs [Hi (x & t & -> & Hx)] Hf]; subst.
+    - exists c, cs, []. rewrite app_nil_r. auto.
+    - exists c, cs, (x :: t). repeat split; auto. right. eauto. }
+  destruct Hshape as (c & cs & offs & -> & -> & Hcs & Hoffs).
+  assert (Hreg : forall l r, RegSyn l r -> exists a b, l = [a; b] /\ ((a =? 114) || (a =? 82)) = true /\ between 48 b 55 = true).
+  { intros l r Hr. inversion Hr as [a b Ha Hb]; subst. exists a, b. repeat split; auto.
+    destruct Ha as [-> | ->]; reflexivity. }
+  destruct cs as [|d cs'].
+  - simpl app. split.
+    + intros Hs. exfalso. destruct Hoffs as [-> |(x & t & -> & Hx)]; [discriminate|].
+      unfold is_str_register in Hs. destruct (sign_not_label_char x Hx) as [_ Hb]. rewrite Hb in Hs.
+      rewrite andb_false_r in Hs. discriminate.
+    + intros [r Hr]. destruct (Hreg _ _ Hr) as (a & b & E & _). discriminate.
+  - simpl in Hcs. apply andb_true_iff in Hcs. destruct Hcs as [Hd Hcs'].
+    destruct cs' as [|e cs''].
+    + simpl app. unfold is_str_register.
+      assert (Hrest : negb (match offs with ch :: _ => can_contain ch | [] => false end) = true).
+      { destruct Hoffs as [-> |(x & t & -> & Hx)]; [reflexivity|].
+        destruct (sign_not_label_char x Hx) as [Hc _]. rewrite Hc. reflexivity. }
+      rewrite Hrest, andb_true_r. split.
+      * intros Hs. apply andb_true_iff in Hs. destruct Hs as [Hc Hb].
+        exists (Z.of_N d - 48)%Z. constructor; [|exact Hb].
+        apply orb_true_iff in Hc. destruct Hc as [Hc|Hc]; apply N.eqb_eq in Hc; auto.
+      * intros [r Hr]. destruct (Hreg _ _ Hr) as (a & b & E & Ha & Hb). inversion E; subst.
+        rewrite Ha, Hb. reflexivity.
+    + split.
+      * intros Hs. exfalso. simpl app in Hs. unfold is_str_register in Hs.
+        simpl in Hcs'. apply andb_true_iff in Hcs'. destruct Hcs' as [He _].
+        rewrite label_char_eq, He in Hs. simpl in Hs. rewrite andb_false_r in Hs. discriminate.
+      * intros [r Hr]. destruct (Hreg _ _ Hr) as (a & b & E & _). discriminate.
+Qed.
+
+Lemma naive_accept_memloc : forall s,
+  check_naive_type [NInteger; NLabel; NPCOffset] s = Ok tt <->
+  (is_str_pc_offset s = true \/ is_str_register s = false).
+Proof.
+  intros s. unfold check_naive_type, naive_try_from.
+  destruct (is_str_pc_offset s); simpl; [tauto|].
+  destruct (is_str_register s); simpl.
+  - split; [discriminate|intros [H|H]; discriminate].
+  - destruct (is_str_integer s); simpl; [tauto|]. destruct (is_str_label s); simpl; tauto.
+Qed.
+
+Lemma MemCoreSyn_not_register : forall s m, MemCoreSyn s m ->
+  (is_str_pc_offset s = true \/ is_str_register s = false) <->
+  (forall name off, m = MLabel name off -> forall r, ~ RegSyn name r).
+Proof.
+  intros s m H. inversion H as [s' v Hp|s' v Hi Hf|s' n o Hl H1 H2 H3]; subst.
+  - split; [intros _ name off E; discriminate|]. intros _. left. inversion Hp; reflexivity.
+  - split; [intros _ name off E; discriminate|]. intros _. right.
+    destruct (IntSyn_head_facts _ _ Hi) as (c & t & -> & _ & Hr1 & Hr2).
+    unfold is_str_register. destruct t as [|d t]; [reflexivity|].
+    destruct (N.eqb_spec c 114); [contradiction|]. destruct (N.eqb_spec c 82); [contradiction|]. reflexivity.
+  - pose proof (is_str_register_label _ _ _ Hl) as Hreg.
+    destruct (LabelSyn_head _ _ _ Hl) as (c & t & -> & Hc).
+    assert (Hpc : is_str_pc_offset (c :: t) = false).
+    { unfold is_str_pc_offset. destruct (N.eqb_spec c 94); [|reflexivity]. exfalso. exact (label_start_facts c Hc e). }
+    rewrite Hpc. split.
+    + intros [Hx|Hx]; [discriminate|]. intros name off E r Hr. inversion E; subst.
+      assert (is_str_register (c :: t) = true) by (apply Hreg; eauto). congruence.
+    + intros Hn. right. destruct (is_str_register (c :: t)) eqn:E; [|reflexivity].
+      exfalso. destruct (proj1 Hreg eq_refl) as [r Hr]. exact (Hn n o eq_refl r Hr).
+Qed.
+
+Lemma MemLocSyn_core : forall s m,
+  MemLocSyn s m <-> (MemCoreSyn s m /\ forall name off, m = MLabel name off -> forall r, ~ RegSyn name r).
+Proof.
+  intros s m. split.
+  - intros H. inversion H; subst.
+    + split; [apply MC_pc; assumption|intros ? ? E; discriminate].
+    + split; [apply MC_addr; assumption|intros ? ? E; discriminate].
+    + split; [apply MC_label; assumption|]. intros ? ? E; inversion E; subst; assumption.
+  - intros [H Hn]. inversion H; subst.
+    + apply ML_pc; assumption.
+    + apply ML_addr; assumption.
+    + apply ML_label; auto. exact (Hn name off eq_refl).
+Qed.
+
+(** An `Address+` argument (goto, assembly, break add, break remove): the preliminary type check
+    and the parse together accept exactly the documented forms, with the documented values. *)
+Theorem memloc_iff : forall s m,
+  (check_naive_type [NInteger; NLabel; NPCOffset] s = Ok tt /\ memory_location_try_parse s = Ok (Some m))
+  <-> MemLocSyn s m.
+Proof.
+  intros s m. rewrite MemLocSyn_core, naive_accept_memloc, memloc_core_iff.
+  split.
+  - intros [Hn Hc]. split; [exact Hc|]. apply (MemCoreSyn_not_register s m Hc). exact Hn.
+  - intros [Hc Hn]. split; [|exact Hc]. apply (MemCoreSyn_not_register s m Hc). exact Hn.
+Qed.
+
+(** A `Register | Address+` argument (print, move). *)
+Theorem location_iff : forall s l, location_try_parse s = Ok (Some l) <-> LocSyn s l.
+Proof.
+  intros s l. split.
+  - unfold location_try_parse. intros H.
+    destruct (register_try_parse s) as [[r|]|e|w|q] eqn:Er; simpl in H; try discriminate.
+    { inversion H; subst. apply Loc_reg. apply register_iff. exact Er. }
+    destruct (memory_location_try_parse s) as [[m|]|e|w|q] eqn:Em; simpl in H; try discriminate.
+    inversion H; subst. apply Loc_mem. apply MemLocSyn_core. apply memloc_core_iff in Em.
+    split; [exact Em|]. apply (MemCoreSyn_not_register s m Em). right. apply register_none_iff. exact Er.
+  - intros H. unfold location_try_parse. inversion H as [s' r Hr|s' m Hm]; subst.
+    + apply register_iff in Hr. rewrite Hr. reflexivity.
+    + apply MemLocSyn_core in Hm. destruct Hm as [Hc Hn].
+      assert (Er : register_try_parse s = Ok None).
+      { apply register_none_iff. apply (MemCoreSyn_not_register s m Hc) in Hn.
+        destruct Hn as [Hpc|Hx]; [|exact Hx].
+        unfold is_str_pc_offset in Hpc. destruct s as [|c t]; [discriminate|]. apply N.eqb_eq in Hpc. subst c.
+        destruct t; reflexivity. }
+      rewrite Er. simpl. apply memloc_core_iff in Hc. rewrite Hc. reflexivity.
+Qed.
+
+Lemma all_digits_of_value : forall R ds acc m, digits_value (radix_val R) ds acc = Some m -> all_digits R ds = true.
+Proof.
+  intros R ds. induction ds as [|c ds IH]; intros acc m H; [reflexivity|].
+  simpl in *. rewrite digit_agree. destruct (digit_of (radix_val R) c); [|discriminate]. eapply IH; exact H.
+Qed.
+
+(** Every integer is classified as an integer by the preliminary type check. *)
+Lemma is_str_integer_letter : forall c R sg2 k2 ds m,
+  radix_of_letter c = Some R -> SignSyn sg2 k2 -> ds <> [] ->
+  digits_value (radix_val R) ds 0 = Some m ->
+  is_str_integer (c :: sg2 ++ ds) = true.
+Proof.
+  intros c R sg2 k2 ds m Hl Hs2 Hne Hv.
+  destruct (digits_head _ _ _ _ Hne Hv) as (d & ds' & dv & -> & Hd).
+  pose proof (digit_not_sign _ _ _ ds' Hd d ds' eq_refl) as [Nd1 Nd2].
+  pose proof (all_digits_of_value R _ _ _ Hv) as Had.
+  unfold is_str_integer.
+  destruct ((c =? 45) || (c =? 43) || (c =? 35) || between 48 c 57); [reflexivity|].
+  unfold radix_of_letter in Hl.
+  assert (Hskip :
+    match (match sg2 ++ d :: ds' with
+           | s0 :: rest2 => if (s0 =? 45) || (s0 =? 43) then rest2 else sg2 ++ d :: ds'
+           | [] => sg2 ++ d :: ds' end) with
+    | [] => false
+    | _ :: _ => all_digits R (match sg2 ++ d :: ds' with
+           | s0 :: rest2 => if (s0 =? 45) || (s0 =? 43) then rest2 else sg2 ++ d :: ds'
+           | [] => sg2 ++ d :: ds' end)
+    end = true).
+  { inversion Hs2; subst; cbv beta iota delta [app].
+    - rewrite (proj2 (N.eqb_neq d 45) Nd2), (proj2 (N.eqb_neq d 43) Nd1). cbv beta iota delta [orb]. exact Had.
+    - change (43 =? 45) with false. change (43 =? 43) with true. cbv beta iota delta [orb]. exact Had.
+    - change (45 =? 45) with true. cbv beta iota delta [orb]. exact Had. }
+  destruct ((c =? 98) || (c =? 66)); [inversion Hl; subst R; exact Hskip|].
+  destruct ((c =? 111) || (c =? 79)); [inversion Hl; subst R; exact Hskip|].
+  destruct ((c =? 120) || (c =? 88)); [inversion Hl; subst R; exact Hskip|discriminate].
+Qed.
+
+Lemma IntSyn_is_str_integer : forall s v, IntSyn s v -> is_str_integer s = true.
+Proof.
+  intros s v H.
+  inversion H as [sg k ds m Hs Hne Hv Hm Es Ev|sg1 k1 px r sg2 k2 ds m Hs1 Hrx Hs2 Hor Hne Hv Hm Es Ev].
+  - destruct (digits_head _ _ _ _ Hne Hv) as (d & ds' & dv & -> & Hd).
+    apply dec_digit_between in Hd.
+    inversion Hs; subst; simpl app; unfold is_str_integer; try reflexivity.
+    rewrite Hd. rewrite !orb_true_r. reflexivity.
+  - inversion Hs1; subst; simpl app; try reflexivity.
+    inversion Hrx as [|c0 r0 Hl|c0 r0 Hl]; subst; simpl app; try reflexivity.
+    rewrite radix_of_letter_spec in Hl. destruct (radix_of_letter c0) as [R|] eqn:ER; [|discriminate].
+    inversion Hl; subst. eapply is_str_integer_letter; eauto.
+Qed.
+
+(** Every integer is classified as an integer by the preliminary type check. *)
+Lemma IntSyn_naive : forall s v, IntSyn s v -> check_naive_type [NInteger] s = Ok tt.
+Proof.
+  intros s v H.
+  pose proof (IntSyn_is_str_integer _ _ H) as Hint.
+  destruct (IntSyn_head_facts _ _ H) as (c & t & E & Hpc & Hr1 & Hr2).
+  unfold check_naive_type, naive_try_from. rewrite Hint.
+  assert (Hp : is_str_pc_offset s = false).
+  { rewrite E. unfold is_str_pc_offset. destruct (N.eqb_spec c 94); [contradiction|reflexivity]. }
+  assert (Hr : is_str_register s = false).
+  { rewrite E. unfold is_str_register. destruct t; [reflexivity|].
+    destruct (N.eqb_spec c 114); [contradiction|]. destruct (N.eqb_spec c 82); [contradiction|]. reflexivity. }
+  rewrite Hp, Hr. reflexivity.
+Qed.
+
+(** An integer value argument (move's VALUE, step into's COUNT). *)
+Theorem value_arg_iff : forall s v,
+  (check_naive_type [NInteger] s = Ok tt /\
+   exists x, parse_integer s false = Ok (Some x) /\ as_u16_cast x = Ok v) <-> ValueSyn s v.
+Proof.
+  intros s v. split.
+  - intros [_ H]. apply value_iff. exact H.
+  - intros H. split; [|apply value_iff; exact H].
+    inversion H as [s' v' Hi _|s' x Hi _]; subst; eapply IntSyn_naive; exact Hi.
+Qed.
